@@ -450,7 +450,7 @@ POLICIES = {
 class C08(Property):
     id = "C08"
     prop_modules = ["CobaVerif.Props.C08"]
-    quick_n = 3000
+    quick_n = 2500
     thorough_n = 30000
     search_n = 1500
     case_timeout = 300
